@@ -455,12 +455,23 @@ PROPS = {
                 "(random multiples of 4 bytes from 0 to mask+32, plus mask and mask+4) each with 64-byte canaries before and after and "
                 "pre-filled with 0xAA: canaries intact, prefix == Rust mask, tail zero-filled, no bit >= vocab. Odd idx: llg_matcher_* "
                 "mirrored on a Rust Matcher (compute_mask_into with exact and wrong sizes, compute_mask/get_mask, is_accepting, is_stopped, "
-                "validate_tokens, compute_ff_tokens into short guarded buffers, rollback, consume). The same workload is run under "
+                "validate_tokens, compute_ff_tokens into short guarded buffers, rollback, consume). Every fifth case drives the auxiliary functions "
+                "(mon_c17_aux): llg_new_tokenizer / _v2 (several EOS ids, truncated and oversized struct_size, refused inits with error "
+                "buffers of 1..128 bytes), a callback tokenizer (tokenize_fn with a harness model that differs from greedy; capacities "
+                "offered to the callback recorded, second pass observed), llg_tokenize_bytes(_marker) / llg_decode_tokens (all flag "
+                "sets) / llg_stringify_tokens into canary-guarded buffers of every length around the result (count independent of the "
+                "buffer, prefix == Rust result, NUL terminator, out-of-range ids), llg_clone_tokenizer with the original freed first, "
+                "llg_new_constraint_{lark,regex,json} / _any / llg_new_constraint(serialised grammar) in lock-step, llg_validate_grammar "
+                "message buffers, llg_get_temperature, llg_clone_matcher (clones checked after the original moved on), "
+                "llg_matcher_consume_tokens (valid batch, sometimes ending in a bad id), llg_matcher_reset, llg_matcher_get_error, and "
+                "llg_new_stop_controller / llg_stop_commit_token / llg_clone_stop_controller vs the Rust StopController. The same workload is run under "
                 "AddressSanitizer (variant asan) so that reads outside the engine's own mask abort the worker. evaluations = mask "
                 "comparisons C vs Rust. Non-trivial = case with >=2 committed tokens; distinct by (grammar, history, vocabulary size, api).",
         "assumptions": ["the C functions are called from Rust (no C compiler in the loop); Miri cannot cross a real C boundary"],
         "quick": {"runs": [q(deadline=30), dict(q(deadline=40, watchdog=900), variant="asan", env=ASAN_ENV)],
-                  "floor": {"cases": 500, "mask_comparisons": 3000, "par_buffers_checked": 5000, "distinct_nontrivial": 300}},
+                  "floor": {"cases": 500, "mask_comparisons": 3000, "par_buffers_checked": 5000, "distinct_nontrivial": 300, "aux_cases": 100,
+                            "tokenize_buffers_checked": 5000, "decode_buffers_checked": 5000, "callback_second_pass_observed": 200,
+                            "stop_commits_compared": 5000, "stop_controller_stops": 1000, "clone_mask_comparisons": 200, "consume_tokens_comparisons": 200}},
         "thorough": {"runs": [q(deadline=360, watchdog=3600), dict(q(deadline=480, watchdog=3600), variant="asan", env=ASAN_ENV)],
                      "floor": {"cases": 20000, "mask_comparisons": 200000}},
     },
